@@ -74,7 +74,7 @@ type pcConf struct {
 func concEligible(c map[string]interface{}) bool {
 	return vt.Str(c["reg"]) == "synth" && vt.Str(c["form"]) != "New" && vt.Str(c["fail"]) == "none" &&
 		!vt.Bool(c["mutate"]) && vt.Str(c["nested"]) == "none" && vt.Str(c["cfg"]) != "none" && vt.Int(c["calls"]) == 2 &&
-		vt.Str(c["user"]) == "set" && vt.Str(c["dv"]) == "valid" && !vt.Bool(c["dsh"])
+		vt.Str(c["user"]) == "set" && vt.Str(c["dv"]) == "valid"
 }
 
 func runConcCase(c map[string]interface{}, goroutines, rounds int) map[string]interface{} {
